@@ -136,6 +136,11 @@ Theorem keys_layout : keys_layout_ok = true /\ List.length keys_table = 24%nat.
 Proof. exact keys_layout_lemma. Qed.
 Print Assumptions keys_layout.
 
+(* the evaluator the correspondence runs (histogram tabulated once) IS the model function *)
+Theorem estimate_key_fast_eq : forall M ns, estimate_key_fast M ns = estimate_key M ns.
+Proof. exact estimate_key_fast_eq_lemma. Qed.
+Print Assumptions estimate_key_fast_eq.
+
 (* moving any notes by any numbers of octaves (independently per note) changes nothing *)
 Theorem key_octave_invariant : forall M ns ns',
   Forall2 (fun n n' => fst n mod 12 = fst n' mod 12 /\ snd n = snd n') ns ns' ->
@@ -181,3 +186,30 @@ Theorem key_transpose_names : forall s ns j i,
   estimate_key (profile_set s) (transpose j ns) = nth (Z.to_nat (rot_key j i)) key_names "?"%string.
 Proof. exact key_transpose_names_lemma. Qed.
 Print Assumptions key_transpose_names.
+
+(* ================================================================== *)
+(* the hypotheses are satisfiable / the models evaluate (concrete non-trivial inputs) *)
+
+(* five rows out of order, two of them with equal onset and pitch: C#4 twice, E4, A3, G#4 *)
+Theorem spelling_example :
+  map named_of (spell_default [(0, 61, 1); (0, 64, 1); (1, 68, 2); (1, 57, 2); (0, 61, 2)])
+  = [((0, 61, 1), ("C", 1, 4)); ((0, 61, 2), ("C", 1, 4)); ((0, 64, 1), ("E", 0, 4));
+     ((1, 57, 2), ("A", 0, 3)); ((1, 68, 2), ("G", 1, 4))]%string.
+Proof. exact spell_example. Qed.
+Print Assumptions spelling_example.
+
+(* chord mode, VoSA answers the representatives 0, 1, 3 (note 2 is in note 1's chord, note 3 has
+   zero duration): the oracle is total on them and every note gets a voice *)
+Theorem voices_example_total :
+  let notes := [(60, 0, 4); (72, 0, 2); (67, 0, 2); (74, 2, 0)] in
+  let ins := indexed_from 0 notes in
+  oracle_total_on (vosa_input ins (equivs_of false ins)) [(0, 0); (3, 1); (1, 1)] = true /\
+  estimate_voices (fun _ => [(0, 0); (3, 1); (1, 1)]) false notes = Some [2; 1; 1; 1].
+Proof. exact (conj voices_total_example voices_example). Qed.
+Print Assumptions voices_example_total.
+
+(* a C major triad: key 0 (C major) beats the 23 others strictly, so the triad a third higher is E *)
+Theorem key_unique_max_satisfiable :
+  unique_max (key_lt (profile_set 0) (ky_hist [(60, 4); (64, 2); (67, 2); (72, 4)])) 0.
+Proof. exact key_unique_max_example. Qed.
+Print Assumptions key_unique_max_satisfiable.
